@@ -3,9 +3,10 @@ From G05 Require Import Routing Spec Check Proofs PacProofs AddrProofs RouteProo
 
 (* direct-domains > localhost-direct > (external function > static upstream > PAC) > none:
    the proxy function composed by configureProxy computes the short spec, for every configuration,
-   every matcher / localhost classifier / PAC oracle and every target. *)
+   every matcher / localhost classifier / PAC / IDNA oracle and every target; a host is a direct-domains host
+   when the list matches its name as written or the (IDNA-mapped) name that is contacted. *)
 Theorem T05_precedence : forall cfg t, proxy_for cfg t = spec_proxy cfg t.
-Proof. exact (proxy_for_is_spec ob_select_order ob_wrappers ob_localhost_const). Qed.
+Proof. exact (proxy_for_is_spec ob_select_order ob_wrappers ob_localhost_const (proj1 ob_direct_rules_judge_contacted_host)). Qed.
 Print Assumptions T05_precedence.
 
 (* The PAC result is translated by the statement's table, for EVERY return string: first entry only; empty /
@@ -52,17 +53,17 @@ Print Assumptions T05_route_is_spec.
 
 (* cfg_wf is what config.go enforces for --proxy: every scheme of its list (extracted) is a proxy type both
    consumers support, the host is a name or an IP literal (no brackets), the port is a number. *)
-Theorem T05_static_upstream_wf : forall sch h p,
+Theorem T05_static_upstream_wf : forall idna sch h p,
   mem sch upstream_supported_schemes = true ->
-  has_byte 91 h = false -> has_byte 93 h = false -> valid_port16 p = true ->
-  presult_wf (PUrl sch (join_host_port h p)).
-Proof. exact (fun sch h p => static_upstream_wf sch h p (proj1 ob_static_upstream_validated)). Qed.
+  has_byte 91 h = false -> has_byte 93 h = false -> valid_port16 p = true -> idna h = h ->
+  presult_wf idna (PUrl sch (join_host_port h p)).
+Proof. exact (fun idna sch h p => static_upstream_wf idna sch h p (proj1 ob_static_upstream_validated)). Qed.
 Print Assumptions T05_static_upstream_wf.
 
 (* The hop chosen for a plain request and for a CONNECT to the same host is the same, or both fail. *)
 Theorem T05_http_connect_agree : forall cfg rules tp tc,
   cfg_wf cfg -> t_kind tp = Plain -> t_kind tc = Connect -> t_scheme tp = b "http" ->
-  spec_target_addr tp = spec_target_addr tc ->
+  spec_target_addr (c_idna cfg) tp = spec_target_addr (c_idna cfg) tc ->
   hostname tp = hostname tc ->
   (forall f, c_upfunc cfg = Some f -> f tp = f tc) ->
   (forall p, c_pac cfg = Some p -> p tp = p tc) ->
@@ -76,6 +77,7 @@ Print Assumptions T05_http_connect_agree.
 
 (* A recognised but unsupported PAC type fails the request on both paths (nothing is dialled) ... *)
 Theorem T05_unsupported_fails : forall cfg rules t p s kw rest,
+  cfg_wf cfg ->
   c_upfunc cfg = None -> c_upstream cfg = None -> c_pac cfg = Some p ->
   direct_domain cfg (hostname t) = false -> localhost_direct cfg (hostname t) = false ->
   p t = PacOk s -> (kw = b "SOCKS" \/ kw = b "SOCKS4") -> first_entry s = kw ++ 32 :: rest ->
@@ -134,12 +136,12 @@ Example T05_example :
   route ex_cfg ex_rules (tgt 1 [] (b "localhost:443")) = OSent (b "sink.test:443") false WDirect [] /\
   route ex_cfg ex_rules (tgt 0 (b "http") (b "bad.test")) = OFail /\
   route ex_cfg ex_rules (tgt 1 [] (b "bad.test:80")) = OFail.
-Proof. exact (conj (cfg_wf_no_static ex_cfg eq_refl eq_refl)
+Proof. exact (conj (cfg_wf_no_static ex_cfg eq_refl eq_refl (fun s _ => eq_refl) ex_pac_ascii)
                    (conj eq_refl (conj eq_refl (conj eq_refl (conj eq_refl (conj eq_refl eq_refl)))))). Qed.
 
 (* the hypothesis cfg_wf is met by every static upstream config.go accepts *)
 Example T05_example_static :
   cfg_wf ex_cfg_static /\
   route ex_cfg_static [] (tgt 1 [] (b "origin.test:443")) = OSent (b "pa.test:1080") false WSocks (b "origin.test:443").
-Proof. exact (conj (cfg_wf_static ex_cfg_static (b "socks5") (b "pa.test") (b "1080") eq_refl eq_refl
-                      socks5_supported eq_refl eq_refl eq_refl) eq_refl). Qed.
+Proof. exact (conj (cfg_wf_static ex_cfg_static (b "socks5") (b "pa.test") (b "1080") eq_refl eq_refl eq_refl
+                      (fun s _ => eq_refl) socks5_supported eq_refl eq_refl eq_refl eq_refl) eq_refl). Qed.
